@@ -26,6 +26,7 @@ PLAIN = [
     "NOP", "MV A, 0x12", "MV BA, 0x1234", "MV X, 0x12345", "MV (BP+0x10), 0x20", "MV [0x12345], (BP+0x10)",
     "MV [(BP+0x10)+0x02], A", "MV [(BP+0x10)], A", "MV (BP+0x10), [X+0x02]", "MV (BP+0x10), [X]",
     "defb 1, 2, 3", "defw 0x1234", "defl 0x012345", "defs 3", 'defm "AB"', 'defb "AB", 3', "defs 0", "",
+    'defm "A\\tB"',      # a string with a backslash sequence: whatever bytes it stands for, both passes must agree on how many
 ]
 REFS = ["JP {L}", "JPZ {L}", "CALL {L}", "CALLF {L}", "JPF {L}", "MV X, {L}", "MV BA, {L}", "MV A, [{L}]", "defw {L}", "defl {L}", "defb {L}, 1",
         "jp {l}", "MV A, [X+{L}]", "MV [(BP+0x10)-{L}], A"]
